@@ -46,6 +46,11 @@ FIXED_CORPUS = [
      'surf': [['in', 1, 2], None, ['in', 2, 4]], 'angle': 30, 'shift': None, 'conv1': 1, 'justify': 'r', 'snap': 0.1, 'file': False},
     {'gen': 'rect18', 'dx': [2.0, 4.0], 'dy': [6.0], 'dz': [2.0, 2.0], 'origin': [0.0, 0.0, 0.0], 'conv': 0, 'atm': 0, 'atmvol': 0.0,
      'surf': None, 'angle': 0, 'shift': None, 'conv1': 3, 'justify': 'l', 'snap': 0.1, 'file': True},
+    # 2-D grid, no atmosphere, origin column reduced to the bottom layer: the origin block has no vertical connection
+    {'gen': 'rect18', 'dx': [2.0, 3.0], 'dy': [10.0], 'dz': [2.0, 1.0], 'origin': [0.0, 0.0, 0.0], 'conv': 0, 'atm': 2, 'atmvol': 1e25,
+     'surf': [['in', 1, 0], None], 'angle': 0, 'shift': None, 'conv1': 0, 'justify': 'r', 'snap': 0.1, 'file': False},
+    {'gen': 'rect18', 'dx': [1.5], 'dy': [1.0, 15.25, 1.5], 'dz': [4.75, 4.75, 2.0, 1.0], 'origin': [-45.5, -43.5, 64.0], 'conv': 2, 'atm': 2,
+     'atmvol': 1e30, 'surf': [['in', 3, 0], None, ['in', 1, 2]], 'angle': 0, 'shift': None, 'conv1': 0, 'justify': 'r', 'snap': 0.1, 'file': False},
 ]
 
 
@@ -93,7 +98,7 @@ def gen_case(rng, big=False, file=False):
                     r = rng.random()
                     if r < 0.2: surf.append(None)
                     elif r < 0.35: surf.append(['above', 0, rng.choice([1, 2, 4, 10])])
-                    else: surf.append(['in', rng.randint(1, nz - 1), rng.choice([1, 2, 3, 4, 4])])
+                    else: surf.append(['in', rng.randint(1, nz - 1), rng.choice([0, 1, 2, 3, 4, 4])])
         # the thickness of the top layer is only observable if some column has a complete top block
         if not any(sp_ is None or sp_[0] == 'above' or (sp_[1] == 1 and sp_[2] == 4) for sp_ in surf):
             surf[rng.randrange(len(surf))] = None
@@ -116,6 +121,7 @@ def surface_value(geo, spec):
         return lays[0].bottom + q / 4.0
     lay = lays[max(1, min(k, len(lays) - 2))]       # never the bottom layer: it stays complete
     if q == 4: return lay.top
+    if q == 0: return lay.bottom                     # = top of the layer below (a column may keep only the bottom layer)
     return lay.bottom + (q / 4.0) * (lay.top - lay.bottom)
 
 
